@@ -1,1 +1,234 @@
-//! C10 harnesses (Engine K)
+//! C10 — a swap crosses exactly the initialised ticks in its path, however packaged (Engine K parts a, b, d, e).
+//!
+//! (a) `get_next_init_tick_index` of FixedTickArray / DynamicTickArrayLoader / ZeroedTickArray vs a reference
+//!     scan written here (no offset arithmetic: it compares `start + slot*spacing` with the search tick).
+//! (b) `SwapTickSequence::get_next_initialized_tick_index` vs a flat reference scan across the arrays.
+//! (d) `get_start_tick_indexes` vs a reference (consecutive arrays from the one holding the (shifted) tick).
+//! (e) `SparseSwapTickSequenceBuilder::new/try_build` vs a reference defined on the *set* of supplied accounts.
+use crate::common::*;
+use anchor_lang::prelude::{Account, AccountInfo, Pubkey};
+use anchor_lang::Discriminator;
+use core::cell::RefCell;
+use std::cell::RefMut;
+use ::whirlpool::errors::ErrorCode;
+use ::whirlpool::state::*;
+use ::whirlpool::util::{SparseSwapTickSequenceBuilder, SwapTickSequence};
+
+const TA: i32 = TICK_ARRAY_SIZE; // 88 slots
+
+/// valid start index of a tick array (the predicate `initialize_tick_array` enforces)
+fn any_valid_start(ts: u16) -> i32 {
+    let s: i32 = kani::any();
+    kani::assume(Tick::check_is_valid_start_tick(s, ts));
+    s
+}
+
+/// Reference for one array: Err(code) if the search tick is outside the (shifted) search range, else the
+/// nearest initialised slot in direction (inclusive leftwards, exclusive rightwards) or None.
+fn ref_search(bitmap: u128, start: i32, ti: i32, ts: i32, a_to_b: bool) -> Result<Option<i32>, u32> {
+    let (lo, hi) = if a_to_b {
+        (start, start + TA * ts)
+    } else {
+        (start - ts, start + (TA - 1) * ts)
+    };
+    if ti < lo || ti >= hi {
+        return Err(ecode(ErrorCode::InvalidTickArraySequence));
+    }
+    let mut best: Option<i32> = None;
+    let mut s: i32 = 0;
+    while s < TA {
+        let t = start + s * ts;
+        if (bitmap >> s) & 1 == 1 {
+            if a_to_b {
+                if t <= ti {
+                    best = Some(t); // the last qualifying slot is the largest one
+                }
+            } else if t > ti && best.is_none() {
+                best = Some(t); // the first qualifying slot is the smallest one
+            }
+        }
+        s += 1;
+    }
+    Ok(best)
+}
+
+fn same_search(r: &anchor_lang::Result<Option<i32>>, e: &Result<Option<i32>, u32>) -> bool {
+    match (r, e) {
+        (Ok(x), Ok(y)) => x == y,
+        (Err(x), Err(y)) => acode(x) == *y,
+        _ => false,
+    }
+}
+
+/// header of a dynamic tick array (without discriminator): start index, whirlpool, bitmap; the search
+/// reads nothing else
+fn dyn_header(start: i32, bitmap: u128) -> [u8; 64] {
+    let mut buf = [0u8; 64];
+    buf[0..4].copy_from_slice(&start.to_le_bytes());
+    buf[36..52].copy_from_slice(&bitmap.to_le_bytes());
+    buf
+}
+
+fn fixed_from_bitmap(start: i32, bitmap: u128) -> FixedTickArray {
+    let mut arr = FixedTickArray::default();
+    arr.start_tick_index = start;
+    let mut s = 0usize;
+    while s < TICK_ARRAY_SIZE_USIZE {
+        arr.ticks[s].initialized = (bitmap >> s) & 1 == 1;
+        s += 1;
+    }
+    arr
+}
+
+fn search_covers(r: &anchor_lang::Result<Option<i32>>, start: i32, ti: i32, ts: u16, a_to_b: bool) {
+    let tsi = ts as i32;
+    kani::cover!(matches!(r, Ok(Some(t)) if *t == start), "found in slot 0");
+    kani::cover!(matches!(r, Ok(Some(t)) if *t == start + 87 * tsi), "found in slot 87");
+    kani::cover!(matches!(r, Ok(None)), "none");
+    kani::cover!(r.is_err(), "outside the search range");
+    kani::cover!(r.is_ok() && !a_to_b && ti < start, "shifted search from below the array start");
+    kani::cover!(r.is_ok() && start < MIN_TICK_INDEX, "array straddling MIN_TICK_INDEX");
+}
+
+fn dyn_search_vs_ref(ts: u16) {
+    let bitmap: u128 = kani::any();
+    let start = any_valid_start(ts);
+    let ti: i32 = kani::any();
+    let a_to_b: bool = kani::any();
+    let buf = dyn_header(start, bitmap);
+    let arr = DynamicTickArrayLoader::load(&buf);
+    let r = arr.get_next_init_tick_index(ti, ts, a_to_b);
+    let e = ref_search(bitmap, start, ti, ts as i32, a_to_b);
+    search_covers(&r, start, ti, ts, a_to_b);
+    assert!(same_search(&r, &e), "dynamic array search == reference scan");
+    core::mem::forget(r);
+}
+
+fn fixed_search_vs_ref(ts: u16) {
+    let bitmap: u128 = kani::any();
+    let start = any_valid_start(ts);
+    let ti: i32 = kani::any();
+    let a_to_b: bool = kani::any();
+    let arr = fixed_from_bitmap(start, bitmap);
+    let r = arr.get_next_init_tick_index(ti, ts, a_to_b);
+    let e = ref_search(bitmap, start, ti, ts as i32, a_to_b);
+    search_covers(&r, start, ti, ts, a_to_b);
+    assert!(same_search(&r, &e), "fixed array search == reference scan");
+    core::mem::forget(r);
+}
+
+// ---------------------------------------------------------------------------------------------
+// (a) dynamic array, per spacing
+
+/// (a) DynamicTickArrayLoader::get_next_init_tick_index == reference scan; symbolic 128-bit bitmap, valid start (incl. MIN array), search tick (all i32), direction; spacing 1
+// @verif prop=C10 tier=quick timeout=300
+#[kani::proof]
+#[kani::unwind(90)]
+#[kani::stub(alloc::fmt::format, stub_format)]
+#[kani::stub(<anchor_lang::error::Error as core::convert::From<::whirlpool::errors::ErrorCode>>::from, stub_err_from_code)]
+fn c10_a_dyn_ts1() {
+    dyn_search_vs_ref(1);
+}
+
+/// (a) as c10_a_dyn_ts1, spacing 8
+// @verif prop=C10 tier=quick timeout=300
+#[kani::proof]
+#[kani::unwind(90)]
+#[kani::stub(alloc::fmt::format, stub_format)]
+#[kani::stub(<anchor_lang::error::Error as core::convert::From<::whirlpool::errors::ErrorCode>>::from, stub_err_from_code)]
+fn c10_a_dyn_ts8() {
+    dyn_search_vs_ref(8);
+}
+
+/// (a) FixedTickArray::get_next_init_tick_index == reference scan; symbolic `initialized` flag of all 88 slots, valid start, search tick, direction; spacing 8
+// @verif prop=C10 tier=quick timeout=300
+#[kani::proof]
+#[kani::unwind(90)]
+#[kani::stub(alloc::fmt::format, stub_format)]
+#[kani::stub(<anchor_lang::error::Error as core::convert::From<::whirlpool::errors::ErrorCode>>::from, stub_err_from_code)]
+fn c10_a_fixed_ts8() {
+    fixed_search_vs_ref(8);
+}
+
+// ---------------------------------------------------------------------------------------------
+// (d) get_start_tick_indexes
+
+/// Anchor `Account<Whirlpool>` over a 653-byte image in which only key, tick_spacing and tick_current_index matter
+fn wp_data(ts: u16, tc: i32) -> [u8; 653] {
+    let mut d = [0u8; 653];
+    d[..8].copy_from_slice(Whirlpool::DISCRIMINATOR);
+    d[41..43].copy_from_slice(&ts.to_le_bytes());
+    d[81..85].copy_from_slice(&tc.to_le_bytes());
+    d
+}
+
+fn start_indexes_vs_ref(ts: u16) {
+    let tc: i32 = kani::any();
+    // tick_current_index range: [MIN-1, MAX] (MIN-1 is the shifted state after an a_to_b swap down to MIN_SQRT_PRICE)
+    kani::assume(tc >= MIN_TICK_INDEX - 1 && tc <= MAX_TICK_INDEX);
+    let a_to_b: bool = kani::any();
+    let q: i32 = kani::any(); // reference witness: index of the first array
+    let key = Pubkey::new_from_array([7u8; 32]);
+    let mut lamports = 1u64;
+    let mut data = wp_data(ts, tc);
+    let owner = ::whirlpool::ID;
+    let ai = AccountInfo::new(&key, false, true, &mut lamports, &mut data[..], &owner, false, 0);
+    let wp: Account<Whirlpool> = Account::try_from(&ai).unwrap();
+    let v = ::whirlpool::util::verif_get_start_tick_indexes(&wp, a_to_b);
+
+    // reference: first = start of the array holding x, x = tick_current (a_to_b) or tick_current + spacing
+    // (b_to_a: the first tick the rightward search can return is > tick_current, and an array's search range is
+    // shifted by one spacing); then the next two arrays in direction; arrays not overlapping [MIN, MAX] dropped.
+    let tsi = ts as i32;
+    let tia = TA * tsi;
+    let x = if a_to_b { tc } else { tc + tsi };
+    kani::assume(q >= -6000 && q <= 6000);
+    let e0 = q * tia;
+    kani::assume(e0 <= x && x < e0 + tia); // unique multiple of tia
+    let step = if a_to_b { -tia } else { tia };
+    let mut exp = [0i32; 3];
+    let mut n = 0usize;
+    let mut k = 0;
+    while k < 3 {
+        let e = e0 + k * step;
+        if e + tia > MIN_TICK_INDEX && e <= MAX_TICK_INDEX {
+            exp[n] = e;
+            n += 1;
+        }
+        k += 1;
+    }
+    kani::cover!(v.len() == 3, "three arrays");
+    kani::cover!(v.len() == 1, "clipped to one array");
+    kani::cover!(!a_to_b && e0 > tc, "shifted: current tick one spacing below the next array");
+    kani::cover!(v.len() > 0 && v[0] < MIN_TICK_INDEX, "starts in the MIN array");
+    assert!(v.len() == n, "number of start indexes");
+    let mut i = 0;
+    while i < n {
+        assert!(v[i] == exp[i], "start index");
+        i += 1;
+    }
+}
+
+/// (d) get_start_tick_indexes == reference; symbolic tick_current_index in [MIN-1, MAX], direction; spacing 64
+// @verif prop=C10 tier=quick timeout=300
+#[kani::proof]
+#[kani::unwind(34)]
+#[kani::stub(alloc::fmt::format, stub_format)]
+#[kani::stub(<anchor_lang::error::Error as core::convert::From<::whirlpool::errors::ErrorCode>>::from, stub_err_from_code)]
+#[kani::stub(<anchor_lang::error::Error as core::convert::From<anchor_lang::error::ErrorCode>>::from, stub_err_from_anchor_code)]
+fn c10_d_start_indexes_ts64() {
+    start_indexes_vs_ref(64);
+}
+
+/// (d) get_start_tick_indexes == reference; symbolic tick_current_index, direction and tick spacing (all u16 >= 1)
+// @verif prop=C10 tier=quick timeout=300
+#[kani::proof]
+#[kani::unwind(34)]
+#[kani::stub(alloc::fmt::format, stub_format)]
+#[kani::stub(<anchor_lang::error::Error as core::convert::From<::whirlpool::errors::ErrorCode>>::from, stub_err_from_code)]
+#[kani::stub(<anchor_lang::error::Error as core::convert::From<anchor_lang::error::ErrorCode>>::from, stub_err_from_anchor_code)]
+fn c10_d_start_indexes_symbolic_spacing() {
+    let ts: u16 = kani::any();
+    kani::assume(ts >= 1);
+    start_indexes_vs_ref(ts);
+}
